@@ -13,7 +13,8 @@ out of the tree into a path -> id map.
 
 Oracle:   tree(copy) == tree(source) with the root name replaced by the requested one;  id map equal (keep) or
 fresh, canonical, pairwise distinct and disjoint from every id in both files before the call (fresh);  the returned
-handle is the new object in the destination (not the source);  an existing destination name is refused and both
+handle is the new object in the destination (not the source);  nothing that existed before the call (the source, every other entity
+of both files) reads differently after it;  an existing destination name is refused and both
 files are unchanged (canonical snapshot + raw scan);  after mutating one side the other side's tree is unchanged.
 """
 import uuid
@@ -453,8 +454,8 @@ def run_copy(ctx, nix, np, rng, fa, fb, kind, rep):
     ids_before = set(raw_ids(fa)) | set(raw_ids(fb))
     tag = "%s:%s:%s" % (kind, "keep" if keep else "fresh", c["dest"])
     ctx.count("source_handle_via:" + c.get("via", "container"))
+    pre_a, pre_b = snapshot.snapshot(nix, fa), snapshot.snapshot(nix, fb)
     if expect_refusal:
-        pre_a, pre_b = snapshot.snapshot(nix, fa), snapshot.snapshot(nix, fb)
         raw_a = snapshot.raw_fingerprint(snapshot.rawscan(fa._h5file))[0]
         raw_b = snapshot.raw_fingerprint(snapshot.rawscan(fb._h5file))[0]
     try:
@@ -483,6 +484,29 @@ def run_copy(ctx, nix, np, rng, fa, fb, kind, rep):
         ctx.case((kind, keep, bool(name), c["dest"], children, "raised", sig_roles))
         return
     ctx.count("copies_made")
+    # ---- the copy must not change anything that existed before: the source, its file, and every bystander in the destination
+    post_a, post_b = snapshot.snapshot(nix, fa), snapshot.snapshot(nix, fb)
+    dest_key = "File:" if isinstance(c["dest_parent"], nix.File) else "%s:%s" % (type(c["dest_parent"]).__name__, c["dest_parent"].id)
+    cont_field = {"block": "blocks", "data_array": "data_arrays", "data_frame": "data_frames", "tag": "tags", "multi_tag": "multi_tags",
+                  "section_to_file": "sections", "section_to_section": "sections", "property": "props"}[kind]
+    for nm, pre, post, f in (("source_file", pre_a, post_a, fa), ("other_file", pre_b, post_b, fb)):
+        # an id that several objects of the file carry (kept-id copies, A8) makes the id-keyed snapshot ambiguous: not compared
+        ambiguous = {i for i, addrs in raw_ids(f).items() if len(addrs) > 1}
+        for x in snapshot.diff(pre, post, limit=60):
+            if x.get("change") == "appeared":
+                continue
+            if x["entity"].split(":", 1)[1] in ambiguous:
+                ctx.count("bystander_records_skipped_ambiguous_id")
+                continue
+            if f is df and x["entity"] == dest_key and x.get("field") in (cont_field, "__dictview__"):
+                continue
+            what = x.get("field") or x.get("change")
+            role = "destination_file" if f is df else nm
+            ctx.violation("copy_changed_existing_content:%s:%s:%s.%s" % (kind + ("" if children else ":shallow"), "keep" if keep else "fresh",
+                                                                         x["entity"].split(":")[0], what),
+                          dict(info, where=role, diff=x), rep)
+            break
+    ctx.count("bystander_checks")
     # ---- the returned handle ---------------------------------------------------------------------------------
     try:
         same_obj = addr_of(cp) == addr_of(src)
@@ -612,7 +636,7 @@ def run_shard(spec, ctx):
 
 def finish(m, tier):
     c = m["counters"]
-    if not c.get("trees_compared") or not c.get("independence_checks") or not c.get("existing_name_cases") or not c.get("mutations_applied"):
+    if not c.get("trees_compared") or not c.get("independence_checks") or not c.get("existing_name_cases") or not c.get("mutations_applied") or not c.get("bystander_checks"):
         m["inconclusive"].append("a deciding monitor was never reached: %r" % {k: c.get(k) for k in ("trees_compared", "independence_checks", "existing_name_cases")})
 
 
